@@ -100,7 +100,9 @@ def eval_block(mats, scale, via, dtype, alphas):
     for b in BASIC:
         out["basic"][b] = call(b)
     for c in CIS:
-        out["ci"][c] = {a: call(c + "_ci", alpha=alpha_value(a)) for a in alphas}
+        # alpha by keyword, or positionally (float variants)
+        out["ci"][c] = {a: (call(c + "_ci", alpha_value(a)) if dtype == "float" else
+                            call(c + "_ci", alpha=alpha_value(a))) for a in alphas}
     return out
 
 
@@ -121,13 +123,21 @@ def events(cases, alphas, ids, tier):
         blocks = [("(n,)", M, (n,))]
         if side * side == n:
             blocks.append(("(a,b)", M.reshape(side, side, 2, 2), (side, side)))
+        # leading shapes with two / three different dimensions (a prefix of the cases that factorises)
+        a2 = max(2, side - 1)
+        b2 = n // a2
+        if b2 >= 2 and b2 != a2:
+            blocks.append(("(a,b)'", M[:a2 * b2].reshape(a2, b2, 2, 2), (a2, b2)))
+        b3 = max(2, (n // 2) // 3)
+        if 2 * b3 * 3 <= n and b3 != 3:
+            blocks.append(("(a,b,c)", M[:2 * b3 * 3].reshape(2, b3, 3, 2, 2), (2, b3, 3)))
         for shape_name, block, lead in blocks:
             try:
                 res = eval_block(block, scale, via, dtype, alphas)
                 exc = ""
             except Exception as ex:  # noqa
                 res, exc = None, f"{type(ex).__name__}: {ex}"[:200]
-            for i, c in enumerate(cases):
+            for i, c in enumerate(cases[:int(np.prod(lead))]):
                 e = {"id": next(ids), "cid": i, "op": "metrics", "exc": exc, "m": list(c),
                      "scale": scale, "via": via, "dtype": dtype, "shape": shape_name,
                      "shape_ok": True, "rates": {}, "basic": [], "ci": {}}
